@@ -81,6 +81,21 @@ theorem canonical_reencodes (ms : ML) (bs : List UInt8) (v : VL) (ws : List Warn
   cases hd'
   exact ⟨rfl, he⟩
 
+/-- *Whatever decodes can be written back* (the statement that failed before the fix of D24):
+for every description whose optional members are its trailing members, every byte string that
+`decode` accepts — canonical or not, with or without warnings — yields a value that `encode`
+accepts, and the bytes written decode to the same value without warnings. -/
+theorem decoded_message_reencodes (ms : ML) (bs : List UInt8) (v : VL) (ws : List Warning)
+    (hwf : wfMs ms = true) (hol : optsLast ms = true) (hd : decodeMembers ms bs = .ok v ws) :
+    ∃ bs', encStruct ms v = .ok bs' ∧ decodeMembers ms bs' = .ok v [] :=
+  decoded_reencodes ms bs v ws hwf hol hd
+
+/-- In every shipped message description the optional members are the trailing ones. -/
+theorem tie_optionals_last :
+    optsLastProto Tw.Gen.Spec_tw05.spec = true ∧ optsLastProto Tw.Gen.Spec_tw06.spec = true ∧
+    optsLastProto Tw.Gen.Spec_tw07.spec = true ∧ optsLastProto Tw.Gen.Spec_ddnet.spec = true := by
+  decide +kernel
+
 /-- The same with message ids: `System::encode` / `Game::encode`, then `msg::decode` dispatching on
 the id (`ordinal << 1 | sys`, or 0 and a UUID). -/
 theorem message_roundtrip (p : ProtoSpec) (sys : Bool) (s : Spec) (v : VL)
